@@ -12,30 +12,50 @@ use super::ProtoReadError;
 use crate::driver::DriverError;
 use crate::error::ApplicationClose;
 use std::future::pending;
+use tokio::sync::mpsc;
 
 pub struct ConnectStream {
-    stream: Option<StreamSession>,
+    result: Option<mpsc::Receiver<DriverError>>,
 }
 
 impl ConnectStream {
     pub fn empty() -> Self {
-        Self { stream: None }
+        Self { result: None }
     }
 
     pub fn is_empty(&self) -> bool {
-        self.stream.is_none()
+        self.result.is_none()
     }
 
+    /// Starts processing the session stream.
+    ///
+    /// Frames are read by a dedicated task: the future reading a frame keeps the bytes
+    /// received so far, hence it must not be dropped (e.g., by a `select!`) while a frame
+    /// is only partially received. The task terminates as soon as `self` is dropped.
     pub fn set_stream(&mut self, stream: StreamSession) {
-        self.stream = Some(stream);
+        let (result_tx, result_rx) = mpsc::channel(1);
+
+        tokio::spawn(async move {
+            tokio::select! {
+                error = Self::run_stream(stream) => {
+                    let _ = result_tx.send(error).await;
+                }
+                () = result_tx.closed() => {}
+            }
+        });
+
+        self.result = Some(result_rx);
     }
 
+    /// Cancel-safe.
     pub async fn run(&mut self) -> DriverError {
-        let stream = match self.stream.as_mut() {
-            Some(stream) => stream,
+        match self.result.as_mut() {
+            Some(result) => result.recv().await.unwrap_or(DriverError::NotConnected),
             None => pending().await,
-        };
+        }
+    }
 
+    async fn run_stream(mut stream: StreamSession) -> DriverError {
         loop {
             return match stream.read_frame().await {
                 Ok(frame) => {
@@ -72,10 +92,7 @@ impl ConnectStream {
                         };
 
                     // reset right away to avoid receiving additional data which requires resetting with ErrorCode::Message.
-                    self.stream
-                        .take()
-                        .unwrap()
-                        .reset(ErrorCode::NoError.to_code());
+                    stream.reset(ErrorCode::NoError.to_code());
 
                     DriverError::ApplicationClosed(ApplicationClose::new(
                         close_session.error_code(),
